@@ -134,37 +134,106 @@ Proof. intros H. vunf. field. exact H. Qed.
 
 Definition collinear (a b : vec3 R) : Prop := vcross ROps a b = V3 0 0 0.
 
+(* the Gram-Schmidt frame the code builds *)
+Definition gs_y (up : vec3 R) : vec3 R := vnormalize ROps up.
+Definition gs_z (up look : vec3 R) : vec3 R :=
+  vsub ROps look (vscale ROps (vdot ROps look (gs_y up)) (gs_y up)).
+Definition gs_r (up look : vec3 R) : mat3 R :=
+  m3rows (vcross ROps (gs_y up) (vnormalize ROps (gs_z up look))) (gs_y up) (vnormalize ROps (gs_z up look)).
+
+Lemma up_look_unfold up look : rotation_from_up_and_look ROps up look =
+  if Reqb (vnorm ROps up) 0 then Raise ValueError
+  else if Reqb (vnorm ROps look) 0 then Raise ValueError
+  else if Reqb (vnorm ROps (gs_z up look)) 0 then Raise ValueError
+  else Ok (gs_r up look).
+Proof. reflexivity. Qed.
+
+Lemma gs_core up look : up <> V3 0 0 0 -> gs_z up look <> V3 0 0 0 ->
+  proper3 (gs_r up look) /\
+  m3apply ROps (gs_r up look) up = V3 0 (vnorm ROps up) 0 /\
+  m3apply ROps (gs_r up look) look = V3 0 (vdot ROps look (gs_y up)) (vnorm ROps (gs_z up look)) /\
+  0 < vnorm ROps (gs_z up look).
+Proof.
+  intros Hup Hz. unfold gs_r. 
+  pose proof (vnormalize_unit up Hup) as Hy. pose proof (vnormalize_scale up Hup) as Hys.
+  pose proof (reject_orth (gs_y up) look Hy) as Hzy. fold (gs_z up look) in Hzy.
+  assert (Hlk : look = vadd ROps (gs_z up look) (vscale ROps (vdot ROps look (gs_y up)) (gs_y up)))
+    by (unfold gs_z; symmetry; apply vsub_add).
+  fold (gs_y up) in Hy, Hys.
+  set (y := gs_y up) in *. set (d := vdot ROps look y) in *. set (n := vnorm ROps up) in *.
+  set (z := gs_z up look) in *. clearbody z y n d.
+  pose proof (vnorm_pos z Hz) as Hm.
+  pose proof (vnormalize_unit z Hz) as Hz1. pose proof (vnormalize_scale z Hz) as Hzs.
+  assert (Hyz : vdot ROps y (vnormalize ROps z) = 0).
+  { rewrite vdot_comm. unfold vnormalize. rewrite vdot_vdivs_l by lra. rewrite Hzy. field. lra. }
+  set (z' := vnormalize ROps z) in *. set (m := vnorm ROps z) in *. clearbody z' m.
+  destruct (frame_apply y z' n d m Hy Hz1 Hyz) as [A1 A2].
+  split; [apply frame_proper; assumption|].
+  split; [rewrite <- Hys; exact A1|]. split; [|exact Hm].
+  rewrite Hlk, <- Hzs. exact A2.
+Qed.
+
+(* collinear inputs are exactly those whose Gram-Schmidt remainder vanishes (up non-zero) *)
+Lemma gs_z_zero_collinear up look : up <> V3 0 0 0 -> gs_z up look = V3 0 0 0 -> collinear up look.
+Proof.
+  intros Hup E. unfold collinear. rewrite <- (vnormalize_scale up Hup), vcross_scale_l.
+  unfold gs_z, gs_y in E. rewrite (reject_zero_collinear _ look _ E). vec_eq; ring.
+Qed.
+Lemma collinear_gs_z_zero up look : up <> V3 0 0 0 -> collinear up look -> gs_z up look = V3 0 0 0.
+Proof.
+  intros Hup Hc. pose proof (vnorm_pos up Hup) as Hn. pose proof (vnorm_sq up) as Hs.
+  unfold gs_z, gs_y, vnormalize, collinear in *. set (n := vnorm ROps up) in *. clearbody n.
+  dv up; dv look. vunf_in Hs. vunf_in Hc. injection Hc as C1 C2 C3. vunf.
+  apply V3_ext.
+  - replace (x2 - (x2 * (x / n) + x3 * (x0 / n) + x4 * (x1 / n)) * (x / n))
+      with (((x * x + x0 * x0 + x1 * x1) * x2 - (x2 * x + x3 * x0 + x4 * x1) * x) / (n * n))
+      by (rewrite <- Hs; field; lra).
+    replace ((x * x + x0 * x0 + x1 * x1) * x2 - (x2 * x + x3 * x0 + x4 * x1) * x) with 0 by (clear - C1 C2 C3; nsatz).
+    field; lra.
+  - replace (x3 - (x2 * (x / n) + x3 * (x0 / n) + x4 * (x1 / n)) * (x0 / n))
+      with (((x * x + x0 * x0 + x1 * x1) * x3 - (x2 * x + x3 * x0 + x4 * x1) * x0) / (n * n))
+      by (rewrite <- Hs; field; lra).
+    replace ((x * x + x0 * x0 + x1 * x1) * x3 - (x2 * x + x3 * x0 + x4 * x1) * x0) with 0 by (clear - C1 C2 C3; nsatz).
+    field; lra.
+  - replace (x4 - (x2 * (x / n) + x3 * (x0 / n) + x4 * (x1 / n)) * (x1 / n))
+      with (((x * x + x0 * x0 + x1 * x1) * x4 - (x2 * x + x3 * x0 + x4 * x1) * x1) / (n * n))
+      by (rewrite <- Hs; field; lra).
+    replace ((x * x + x0 * x0 + x1 * x1) * x4 - (x2 * x + x3 * x0 + x4 * x1) * x1) with 0 by (clear - C1 C2 C3; nsatz).
+    field; lra.
+Qed.
+
 Lemma up_look_spec up look : up <> V3 0 0 0 -> look <> V3 0 0 0 -> ~ collinear up look ->
   exists r b c, rotation_from_up_and_look ROps up look = Ok r /\ proper3 r /\
     m3apply ROps r up = V3 0 (vnorm ROps up) 0 /\
     m3apply ROps r look = V3 0 b c /\ 0 < c.
 Proof.
   intros Hup Hlook Hcol.
-  pose proof (vnorm_pos up Hup) as Hn. pose proof (vnorm_pos look Hlook) as Hl.
-  unfold rotation_from_up_and_look, n0; rops.
-  rewrite (proj2 (Reqb_false (vnorm ROps up) 0)) by lra.
-  rewrite (proj2 (Reqb_false (vnorm ROps look) 0)) by lra.
-  rewrite vdivs_is_normalize.
-  pose proof (vnormalize_unit up Hup) as Hy. pose proof (vnormalize_scale up Hup) as Hys.
-  set (y := vnormalize ROps up) in *. set (n := vnorm ROps up) in *. clearbody y n.
-  set (d := vdot ROps look y).
-  pose proof (reject_orth y look Hy) as Hzy. fold d in Hzy.
-  set (z := vsub ROps look (vscale ROps d y)) in *.
-  assert (Hz : z <> V3 0 0 0).
-  { intros E. apply Hcol. unfold collinear. rewrite <- Hys, vcross_scale_l.
-    rewrite (reject_zero_collinear y look d E). vec_eq; ring. }
-  assert (Hlk : look = vadd ROps z (vscale ROps d y)) by (unfold z; symmetry; apply vsub_add).
-  clearbody z.
-  pose proof (vnorm_pos z Hz) as Hm.
-  rewrite (proj2 (Reqb_false (vnorm ROps z) 0)) by lra.
-  rewrite vdivs_is_normalize.
-  pose proof (vnormalize_unit z Hz) as Hz1. pose proof (vnormalize_scale z Hz) as Hzs.
-  assert (Hyz : vdot ROps y (vnormalize ROps z) = 0).
-  { rewrite vdot_comm. unfold vnormalize. rewrite vdot_vdivs_l by lra. rewrite Hzy. field. lra. }
-  set (z' := vnormalize ROps z) in *. set (m := vnorm ROps z) in *. clearbody z' m.
-  destruct (frame_apply y z' n d m Hy Hz1 Hyz) as [A1 A2].
-  exists (m3rows (vcross ROps y z') y z'), d, m.
-  split; [reflexivity|]. split; [apply frame_proper; assumption|].
-  split; [rewrite <- Hys; exact A1|]. split; [|exact Hm].
-  rewrite Hlk, <- Hzs. exact A2.
+  assert (Hz : gs_z up look <> V3 0 0 0) by (intros E; apply Hcol, gs_z_zero_collinear; assumption).
+  destruct (gs_core up look Hup Hz) as (P & A1 & A2 & Hm).
+  exists (gs_r up look), (vdot ROps look (gs_y up)), (vnorm ROps (gs_z up look)).
+  rewrite up_look_unfold.
+  rewrite (proj2 (Reqb_false (vnorm ROps up) 0)) by (pose proof (vnorm_pos up Hup); lra).
+  rewrite (proj2 (Reqb_false (vnorm ROps look) 0)) by (pose proof (vnorm_pos look Hlook); lra).
+  rewrite (proj2 (Reqb_false (vnorm ROps (gs_z up look)) 0)) by lra.
+  split; [reflexivity|]. split; [exact P|]. split; [exact A1|]. split; [exact A2 | exact Hm].
+Qed.
+(* whenever the function returns, what it returns is a proper rotation *)
+Lemma up_look_ok_proper up look r : rotation_from_up_and_look ROps up look = Ok r -> proper3 r.
+Proof.
+  rewrite up_look_unfold.
+  destruct (Reqb_spec (vnorm ROps up) 0) as [E|E]; [discriminate|].
+  destruct (Reqb_spec (vnorm ROps look) 0) as [E1|E1]; [discriminate|].
+  destruct (Reqb_spec (vnorm ROps (gs_z up look)) 0) as [E2|E2]; [discriminate|].
+  intros H. injection H as <-.
+  apply gs_core.
+  - intros Hz. apply E, vnorm_zero_iff, Hz.
+  - intros Hz. apply E2, vnorm_zero_iff, Hz.
+Qed.
+(* in exact arithmetic, collinear (non-zero) inputs are refused as well *)
+Lemma up_look_rejects_collinear up look : up <> V3 0 0 0 -> collinear up look ->
+  rotation_from_up_and_look ROps up look = Raise ValueError.
+Proof.
+  intros Hup Hc. rewrite up_look_unfold. rewrite (collinear_gs_z_zero up look Hup Hc), vnorm_zero.
+  destruct (Reqb (vnorm ROps up) 0); [reflexivity|]. destruct (Reqb (vnorm ROps look) 0); [reflexivity|].
+  rewrite (proj2 (Reqb_true 0 0) eq_refl). reflexivity.
 Qed.
